@@ -250,6 +250,17 @@ OPS = {
 }
 
 
+def poison(variant, k):
+    """uninitialised memory is a hidden entropy source: before every call the heap's free lists are filled with
+    copy-specific garbage, so that a result computed from numpy.empty() leftovers differs between the twin interpreters"""
+    val = 0.0 if variant == "A" else 1e5 + 17.0 * k
+    # numpy keeps freed blocks of up to 1024 bytes in per-size buckets (16-byte steps, 7 blocks each); larger blocks go
+    # back to malloc's free lists
+    junk = [np.full(sz, val) for sz in range(1, 131) for _ in range(8)]
+    junk += [np.full(sz, val) for sz in (160, 200, 256, 300, 400, 512, 700, 1024, 1500, 2048, 4096) for _ in range(3)]
+    del junk
+
+
 def noise(variant, env):
     """prior history of the interpreter: arbitrary use of the global streams (and of the library) before re-seeding"""
     import pybrops.core.random.prng as prng
@@ -283,6 +294,7 @@ def execute(programs, variant):
                     gens[op["g"]] = prng.spawn(); res = None
                 else:
                     kind, fn, _ = OPS[op["name"]]
+                    poison(variant, len(evs))
                     with np.errstate(all="ignore"):
                         res = fn(env, gens[op["rng"]] if op["rng"] != "none" else None)
                 ev["dig"] = _sha(canon(res)) if res is not None else "-"
